@@ -36,7 +36,4 @@ theorem fracDirection_small (sat cent : ℚ) (h : |sat - cent| ≤ 1 / 2) : Gen.
   unfold Orient.wrapHalf
   rw [if_neg (by linarith [h.2]), if_neg (by linarith [h.1])]
 
-theorem directions_from_wrapped_positions : Gen.directionsFromWrappedPositions = true := by
-  rfl
-
 end G.C18Gen
